@@ -57,6 +57,33 @@ def check_config(cfg, w, rep):
             rep.violation("a-env:%s" % fn_key(lf), "`%s` derives a path from a process-global location (%s)" % (short(lf.path), e.term.callee.path),
                           loc=e.loc(), config=cfg, rule="a-confined")
 
+    # ---- (a2) the two address functions, whose results clause (a) takes to lie under their first argument, really build
+    #      `<first argument>/seg/seg/...` by joining path segments: no detour through text (`display()`, `to_string_lossy()` —
+    #      lossy for directory names that are not UTF-8, so the files would land in a sibling directory), no other root ----
+    n_addr = 0
+    for p_ in list(w.roles.content_path) + list(w.roles.bucket_path):
+        lf_ = prog.fns[p_]
+        n_addr += 1
+        t_ = w.sym.of_place(lf_.body, 0, ())
+        from ..symval import inline_private_calls
+        t_ = inline_private_calls(w.sym, prog, t_, skip=set(w.roles.hash_fns))
+        c_ = w.inv.classify(t_)
+        base, nseg = c_, 0
+        while base[0] == "Join":
+            base, nseg = base[1], nseg + 1
+        lossy = [st[1] for st in walk(t_) if st[0] == "call" and re.search(r"(Path::display|to_string_lossy|from_utf8_lossy|Path::to_str)$", st[1])]
+        if base[0] == "Param" and base[2] == 0 and not base[3] and nseg >= 1 and not lossy:
+            rep.ob(cfg, "a2-address-rooted", fn_key(lf_), "`%s` returns its first argument joined with %d further segment(s)" % (short(p_), nseg))
+        else:
+            rep.violation("a2-address:%s" % fn_key(lf_),
+                          "`%s` does not build its result by joining segments onto its cache-directory argument (%s%s): every effect on such an "
+                          "address is taken to lie inside the cache directory, but %s" % (
+                              short(p_), shape(c_)[:80], "; via " + ", ".join(sorted(set(x.rsplit("::", 2)[-2] + "::" + x.rsplit("::", 1)[-1] for x in lossy))) if lossy else "",
+                              "a path that went through text is a different path when the directory name is not valid UTF-8" if lossy
+                              else "it is rooted elsewhere"),
+                          loc=lf_.body.loc(), config=cfg, rule="a2-address-rooted")
+    rep.floor("address_functions", n_addr, 2, cfg)
+
     # ---- (b) keys are opaque ----
     R = w.roles
     for p in R.bucket_path:
@@ -155,7 +182,7 @@ def check_config(cfg, w, rep):
     rep.floor("read_only_entries", n_ro, 22 if is_async else 11, cfg)
 
 
-DIGEST_INPUT = re.compile(r"Digest>::(update|digest|chain_update|new_with_prefix)$")
+DIGEST_INPUT = re.compile(r"(Digest>|^digest::Digest)::(update|digest|chain_update|new_with_prefix)$")
 
 
 def key_leaks(w, t, lf):
